@@ -13,7 +13,7 @@ PROPERTIES_V = 'theories/C20/Properties.v'
 IMPORTS = 'Require Import FV.Gen.C20 FV.C20.Model FV.C20.Run.'
 CASE_TYPE = 'case'
 CHECK = 'check_case'
-SHARD_SIZE = 200
+SHARD_SIZE = 300
 RULE = ('routing: histories of {logging <module|.|""|None|unknown> <level>, emit(module, levelno), *IDN?, disconnect} on 1..3 '
         'fake connections and 1..3 real Modules behind a real Dispatcher + RemoteLogHandler; levels: all valid names, '
         'case variants, invalid names, ints, floats, None, bools, lists, dicts; every history ends with a probe sweep '
@@ -397,24 +397,6 @@ def oracle(case, obs):
 
 
 # ------------------------------------------------------------------ known finding classes (narrow)
-def _head_slice_signature(case, obs, idx):
-    """the removed entries are exactly what the repaired doRollover removes: files[:-max_days] of the sorted regular
-    files named <root>-*.log"""
-    n = case['max_days']
-    if n <= 0:
-        return None
-    before = obs['steps'][idx - 1]['listing'] if idx else obs['listing0']
-    s = obs['steps'][idx]
-    written = f'{case["root"]}-{s["date"]}.log'
-    entries = {e[0]: e[1] for e in before}
-    entries.setdefault(written, True)
-    files = sorted(x for x in entries if x.startswith(case['root'] + '-') and x.endswith('.log') and entries[x])
-    expect = files[:-n]
-    after = {e[0] for e in s['listing']}
-    removed = sorted(x for x in entries if x not in after)
-    return expect if removed == sorted(expect) else None
-
-
 def _is_unnamed_level(case, obs, failure):
     if case['kind'] != 'route' or failure['class'] != 'missed-delivery':
         return False
@@ -423,21 +405,8 @@ def _is_unnamed_level(case, obs, failure):
     return op[0] == 'emit' and op[2] not in SPEC_NAMES and s['exc'] == 'KeyError'
 
 
-def _is_later_dated_file(case, obs, failure):
-    """a regular log file of this handler dated later than the file being written is present, and the removal is
-    otherwise exactly the one of the repaired code"""
-    if case['kind'] != 'rot' or failure['class'] != 'rotation-removed-newest':
-        return False
-    idx = failure['step']
-    before = obs['steps'][idx - 1]['listing'] if idx else obs['listing0']
-    date = obs['steps'][idx]['date']
-    later = [e[0] for e in before if e[1] and (parse_dated(case['root'], e[0]) or '') > date]
-    return bool(later) and _head_slice_signature(case, obs, idx) is not None
-
-
 FINDING_CLASSIFIERS = {
     'record_level_without_name': _is_unnamed_level,
-    'rollover_later_dated_file': _is_later_dated_file,
 }
 
 
